@@ -49,6 +49,8 @@ Reset(e) ==
   /\ tno' = tno + 1
 
 Installs(e, f) == e.pt = "commit.swapped" /\ e.f = f
+HasDir(e) == "dir" \in DOMAIN e      \* runs of the real binary log the directory only at the end
+HasOp(e) == "op" \in DOMAIN e
 
 \* the checks made on one event e (state before: unprimed); result "" or the name of the broken clause
 Check(e) ==
@@ -61,7 +63,8 @@ Check(e) ==
                              ELSE IF e.pt = "exited" THEN reading[f] \ {e.p}
                              ELSE reading[f]]
   IN
-  IF \E f \in Files : Cardinality(hU[f]) > 1 THEN "ObsMutex:two-holders"
+  IF ~HasDir(e) THEN ""
+  ELSE IF \E f \in Files : Cardinality(hU[f]) > 1 THEN "ObsMutex:two-holders"
   ELSE IF \E f \in Files : hU[f] # {} /\ rd[f] # {} THEN "ObsMutex:read-while-held"
   ELSE IF \E f \in must : ~e.dir[f].exists THEN "ObsDurable:table-missing"
   ELSE IF \E f \in must : e.dir[f].ver < 0 THEN "ObsDurable:table-incomplete"
@@ -84,9 +87,9 @@ Apply(e) ==
                              ELSE IF e.pt = "close.done" /\ e.op = "read" /\ e.f = f THEN reading[f] \ {e.p}
                              ELSE IF e.pt = "exited" THEN reading[f] \ {e.p}
                              ELSE reading[f]]
-  /\ ver' = [f \in Files |-> IF f \in must /\ e.dir[f].exists /\ e.dir[f].ver >= 0 THEN e.dir[f].ver ELSE ver[f]]
+  /\ ver' = [f \in Files |-> IF HasDir(e) /\ f \in must /\ e.dir[f].exists /\ e.dir[f].ver >= 0 THEN e.dir[f].ver ELSE ver[f]]
   /\ ncommit' = [f \in Files |-> IF f \in must /\ Installs(e, f) THEN ncommit[f] + 1 ELSE ncommit[f]]
-  /\ must' = must \cup {f \in Files : Installs(e, f) /\ e.dir[f].exists}
+  /\ must' = must \cup {f \in Files : Installs(e, f) /\ (HasDir(e) => e.dir[f].exists)}
   /\ failed' = IF e.out \notin {"run", "ok"} THEN failed \cup {e.p} ELSE failed
   /\ bad' = IF bad # "" THEN bad ELSE Check(e)
   /\ UNCHANGED tno
@@ -96,6 +99,8 @@ EndCheck(e) ==
   IF \E f \in Files : e.dir[f].lock \/ e.dir[f].nrlock > 0 \/ e.dir[f].temp THEN "ObsCleanExit:control-file-left"
   ELSE IF \E f \in must : e.dir[f].ver # ncommit[f] THEN "ObsNoLostUpdate:final-count"
   ELSE IF \E f \in Files \ must : e.dir[f].exists THEN "ObsCleanExit:uncommitted-table-left"
+  ELSE IF \E f \in must : ~e.dir[f].exists THEN "ObsDurable:table-missing"
+  ELSE IF "readonly" \in DOMAIN e /\ e.readonly /\ ~e.unchanged THEN "ObsReadOnly:files-changed"
   ELSE ""
 
 ObsNext ==
